@@ -186,6 +186,15 @@ fn rejected<W: TW>(c: &mut Case, b: &mut BitFieldVec<W>, width: usize, m: &[u128
         let r = catch(|| b.set(i, v));
         c.check("set_oob", r.is_err(), || format!("set({},{:#x}) on len {} did not panic; {}", i, v.to128(), len, trace()));
     }
+    // positioned iteration: a start position in 0..=len is accepted, anything beyond is rejected
+    {
+        let froms = [len + 1, len + 2, len + bits, 2 * len + 2, usize::MAX];
+        let f = froms[c.rng().random_range(0..froms.len())];
+        let r = catch(|| b.iter_from(f).take(3).count());
+        c.check("iter_from_oob", r.is_err(), || format!("iter_from({}) on len {} did not panic (the iterator yields {:?} items within 3 steps); {}", f, len, r, trace()));
+        let r = catch(|| sux::traits::IntoIteratorFrom::into_iter_from(&*b, f).take(3).count());
+        c.check("iter_from_oob", r.is_err(), || format!("into_iter_from({}) on len {} did not panic; {}", f, len, trace()));
+    }
     if width < bits {
         // values that do not fit: smallest one, all ones, a fitting value plus the next bit
         let cands = [1u128 << width, mask128(bits), gen_val(c.rng(), width) | (1u128 << width), 1u128 << (bits - 1)];
